@@ -249,6 +249,8 @@ def run_jobs(jobs, use_model: bool, max_workers: int = 12):
 
 def merge(ctx, results, tag):
     for r in results:
+        if r.get("selfcheck"):
+            raise common.InfraError("harness self-check failed (impl/selexpr.py vs impl/expr_oracle.py): " + r["selfcheck"][0])
         ctx.evaluations += r["n"]
         hx = r["hashes"]
         for i in range(0, len(hx), 16):
